@@ -681,6 +681,17 @@ inductive Fmt where
   | bare      -- the held value itself is the right operand of `%`
   deriving Repr, DecidableEq, Inhabited
 
+/-- the objects whose `__str__` / `__repr__` format a user value with plain `repr()` / `str()` / `%r` -/
+inductive BadHolder where
+  | future            -- futures.py:166-180 FutureBase.__repr__: `"= " + repr(self.value())` (Future, ConstFuture, batch items)
+  | errorFuture       -- futures.py:176 `"error = " + repr(self.error())`
+  | task              -- async_task.py:366-371 AsyncTask.__str__: `repr(self.value())` / `repr(self.error())`; repr: FutureBase.__repr__
+  | scopedValue       -- scoped_value.py:52-56 `% str(self._value)` / `% repr(self._value)`
+  | scopedOverride    -- scoped_value.py:72-76 `value=%r`
+  | propOverride      -- scoped_value.py:93-97 `value=%r`
+  | genValue          -- generator.py:86-87 `"<Value: %r>" % (self.value,)`
+  deriving Repr, DecidableEq, Inhabited
+
 inductive Obj where
   | fut (s : FutSt)           -- Future, ConstFuture, ErrorFuture, batch items (no `__str__`: `str` = `repr`)
   | task (t : TaskSt)
@@ -693,6 +704,10 @@ inductive Obj where
   /-- a ConstFuture / ErrorFuture describing itself from inside its own constructor (`set_value` → `_computed` →
       `debug.str(self)` under DUMP_COMPUTED); `inReprSet`: does `_in_repr` exist at that moment? -/
   | constInit (inReprSet : Bool)
+  /-- an object holding a value (or error) whose OWN `__repr__` / `__str__` raises (audit 3, A5).  `viaDump`: the
+      operation is `dump()`, which goes through `debug.write(debug.str(self))` = qcore.safe_str and never lets the
+      failure out; otherwise `str(x)` / `repr(x)`, whose format expression calls `repr` / `str` of the held value -/
+  | badHeld (k : BadHolder) (viaDump : Bool)
   deriving Repr, DecidableEq, Inhabited
 
 inductive Op where
@@ -826,6 +841,10 @@ def render : Obj → Op → Res
   | .constInit inReprSet, _ =>
     -- futures.py:162-163 `if self._in_repr:` while futures.py:208-215 / 227-234 assign `_in_repr` after `set_value(..)`
     if inReprSet then .ok .text else .raised .attributeError
+  | .badHeld _ viaDump, _ =>
+    -- the code as it is: every one of the format expressions named at `BadHolder` lets the exception of the held
+    -- value's `__repr__` out of `str(x)` / `repr(x)`; `dump()` survives (safe_str)
+    if viaDump then .ok (.dump .line) else .raised .other
 
 /-- is the cell inside the statement?  "format_error accepts any EXCEPTION with or without traceback": the first
     argument is None or an exception, and `_traceback` - the private attribute in which asynq keeps the glued traceback -
@@ -840,6 +859,88 @@ def reprClause (kind op : String) (o : Obj) (r : Res) : String :=
   if !inStatement o then "ok"
   else match r with
     | .ok _ => "ok"
-    | .raised _ => s!"raises:{kind}.{op}"
+    | .raised _ =>
+      match o with
+      -- the recorded open finding (known_findings.json, signature repr/held-value-repr-raises): str / repr of an
+      -- object that holds a value whose own repr raises; `dump()` of such an object is NOT covered by the name
+      | .badHeld _ false => "held-value-repr-raises"
+      | _ =>
+        let n := s!"raises:{kind}.{op}"
+        if n == "held-value-repr-raises" then "raises" else n    -- (never: `n` begins with "raises:"; keeps the recorded name exact)
+
+/-! ## 4. chains whose exceptions REJECT attribute assignment (audit 3, A2)
+
+`@dataclass(frozen=True) class E(Exception)`, a class whose `__setattr__` raises, ...: async_task.py:279-281
+`_accept_error` executes `error._task = self` (then qcore `prepare_for_reraise`: `error._traceback = ..`,
+`error._type_ = ..`) inside `_continue`'s `except BaseException as error:` clause.  For such an exception the assignment
+itself raises (FrozenInstanceError); nothing catches it: it leaves `_continue`, `_continue_with_task`, `_execute`,
+`wait_for` and arrives at the synchronous caller of the OUTERMOST task.  The failing task is never computed, its awaiter
+is never continued (its `try/except` never sees the exception), `TaskScheduler._tasks` / `active_task` keep the
+abandoned tasks.  Modelled for chains in which every level awaits by `yield` and the bottom is nothing or an
+`ErrorFuture` (`rejectDomain`); every exception of the chain (own, `raise New()`, the ErrorFuture's) is of that class. -/
+
+inductive ExcClass where
+  | accepts    -- attribute assignment works (every ordinary exception class): the model `run` above
+  | rejects    -- attribute assignment raises
+  deriving Repr, DecidableEq, Inhabited
+
+/-- token of the exception raised by the rejected assignment (what the harness reports for FrozenInstanceError) -/
+def rejectTok : Nat := 997
+
+inductive ROut where
+  | returned     -- the task of this level computed a value
+  | delivered    -- (below the innermost level only) the ErrorFuture's error, thrown into the awaiting generator by
+                 -- `_continue_on_generator` (`throw(type(error), error)`: no attribute is written on that path)
+  | escaped      -- an exception left a generator: `_accept_error`'s assignment raised out of the scheduler
+  deriving Repr, DecidableEq, Inhabited
+
+def rejectDomain (bottom : Bottom) (levels : List Level) : Bool :=
+  levels.all (fun L => L.await == .yld) && (bottom == .none || bottom == .errFuture) && !levels.isEmpty
+
+/-- levels `lv, lv+1, ..` of a chain of rejecting exceptions: outcome and the `format_asynq_stack()` answers given so
+    far (every creator is suspended in its await: the answer of level `lv` is `0 .. lv`) -/
+def rejectRun (bottom : Bottom) : Nat → List Level → ROut × List Event
+  | _, [] => (if bottom == .errFuture then .delivered else .returned, [])
+  | lv, L :: rest =>
+    let (c, evs) := rejectRun bottom (lv + 1) rest
+    let evStart := Event.stack .start lv (List.range (lv + 1))
+    let evHandler := Event.stack .handler lv (List.range (lv + 1))
+    -- after the await: `raise E()` leaves the generator → `_accept_error` → the assignment raises
+    let fin : ROut := if L.own.isSome then .escaped else .returned
+    match c with
+    | .escaped => (.escaped, evStart :: evs)            -- this level is never continued
+    | .returned => (fin, evStart :: evs)
+    | .delivered =>
+      match L.handler with
+      | .pass => (.escaped, evStart :: evs)
+      | .swallow => (fin, evStart :: evs ++ [evHandler])
+      | _ => (.escaped, evStart :: evs ++ [evHandler])   -- `raise` / `raise e` / `raise New()` leave the generator
+
+/-- what the caller catches when the assignment raised: FrozenInstanceError with the caller's frame and library frames
+    only; it has no `_traceback` (format_error prints no frame) -/
+def rejectResult : ROut → Event
+  | .escaped => .result (some (rejectTok, [.caller], [.caller], []))
+  | _ => .result none
+
+/-- the whole observation; the orphans are run by the caller afterwards (on the dirty scheduler) and answer as always -/
+def rejectTop (bottom : Bottom) (levels : List Level) : List Event :=
+  let r := rejectRun bottom 0 levels
+  r.2 ++ [rejectResult r.1] ++ refOrphans 0 levels
+
+/-- the model of the code as it is, by exception class -/
+def runTopC (cls : ExcClass) (rule : FrameRule) (bottom : Bottom) (levels : List Level) : List Event :=
+  match cls with
+  | .accepts => runTop rule bottom levels
+  | .rejects => rejectTop bottom levels
+
+/-- `Spec.C18` (glue part) for a chain of rejecting exceptions: the SAME reference as for every other class (the
+    property text has no exception for them).  The name of the recorded open finding is given only to the very
+    observation the model of the code predicts for this chain; every other wrong observation keeps `glueClause`'s name -/
+def rejectClause (bottom : Bottom) (levels : List Level) (events : List Event) : String :=
+  if events == refTop bottom levels then "ok"
+  else if events == rejectTop bottom levels then "exception-rejecting-attributes-not-delivered"
+  else
+    let c := glueClause bottom levels events      -- never "ok" here (`C18_glue_observer_exact`)
+    if c == "exception-rejecting-attributes-not-delivered" then "not-the-reference-events" else c
 
 end AsynqModel.Debug
